@@ -554,6 +554,12 @@ def overused_constant(source: str, *, root_is_static: bool) -> str:
         for node in core.walk(fstring, ast.AST):
             candidates.discard(node)
 
+    # A name in the pattern of a case is a capture, it matches anything. The constant is a value.
+    if constants.PYTHON_VERSION >= (3, 10):
+        for match_case in core.walk(root, ast.match_case):
+            for node in core.walk(match_case.pattern, ast.AST):
+                candidates.discard(node)
+
     # For every node, all scopes it can be found in
     scope_node_definitions = collections.defaultdict(set)
     for scope in itertools.chain([root], core.walk(root, (ast.FunctionDef, ast.AsyncFunctionDef))):
